@@ -298,6 +298,17 @@ Theorem C18_ranges_as_documented :
   /\ float_same go_period_min doc_period_min = true /\ float_same go_period_max doc_period_max = true.
 Proof. exact ranges_as_documented. Qed.
 
+(* the defaults of the options are the documented ones *)
+Theorem C18_defaults_as_documented :
+  go_default_ttl = 1 /\ go_default_timeout = 15 /\ go_default_ticks = 2 /\ go_default_histo = 200
+  /\ go_default_auto_fence = false /\ go_default_irix = false
+  /\ go_default_event_link = go_EventLinks_NONE /\ go_default_conciliation = go_ConciliationStrategies_USER
+  /\ go_default_starting = go_StartingStrategies_CONFIG
+  /\ go_default_failure = go_SupvisorsFailureStrategies_CONTINUE
+  /\ go_default_host_stats = true /\ go_default_proc_stats = true
+  /\ go_default_stats_periods = [10] /\ go_default_tail_limit = 1024.
+Proof. exact defaults_as_documented. Qed.
+
 (* an integer option is in its range or at its default *)
 Theorem C18_options_int_in_range :
   forall lo hi dflt v,
@@ -315,16 +326,15 @@ Theorem C18_options_enum_in_domain :
   let r := conv_enum values dflt v in In r values \/ r = dflt.
 Proof. exact conv_enum_in_domain. Qed.
 
-(* a period is accepted by the two comparisons or is the default *)
+(* a period is accepted or is the default *)
 Theorem C18_options_period_accepted :
   forall dflt v,
   let r := conv_period dflt v in period_refused r = false \/ r = dflt.
 Proof. exact conv_period_accepts_or_default. Qed.
 
-(* an accepted period that is not a nan lies in [1;3600] *)
+(* EVERY accepted period lies in [1;3600] (F21 repaired) *)
 Theorem C18_options_period_in_range :
-  forall p,
-  period_refused p = false -> comparable p -> period_in_range p = true.
+  forall p, period_refused p = false -> period_in_range p = true.
 Proof. exact accepted_period_in_range. Qed.
 
 (* 1 to 3 accepted periods, or the default *)
@@ -333,6 +343,16 @@ Theorem C18_options_periods_accepted :
   let r := conv_periods dflt v in
   r = dflt \/ ((1 <= length r <= 3)%nat /\ forall p, In p r -> period_refused p = false).
 Proof. exact conv_periods_accepts_or_default. Qed.
+
+(* F21 repaired: a nan period falls back to the default *)
+Theorem C18_to_period_nan_rejected :
+  forall dflt, conv_period dflt (FVal nan) = dflt.
+Proof. exact to_period_nan_rejected. Qed.
+
+(* F21 repaired: a list holding a nan falls back to the default *)
+Theorem C18_to_periods_nan_rejected :
+  forall dflt l, In (Some nan) l -> conv_periods dflt (PToks l) = dflt.
+Proof. exact to_periods_nan_rejected. Qed.
 
 (* CORE / STRICT dropped with empty lists; refusal iff nothing is left; TIMEOUT forces CONTINUE *)
 Theorem C18_check_options_rules :
@@ -351,49 +371,34 @@ Theorem C18_check_options_rules :
      end.
 Proof. exact check_options_rules. Qed.
 
-(* an explicit synchro_options does not touch the class-level default *)
+(* no construction alters the class-level default of synchro_options (aliasing repaired) *)
 Theorem C18_class_default_frame :
-  forall cd c l,
-  conv_synchro (c_synchro_options c) = Some l -> snd (build cd c) = cd.
+  forall cd c, snd (build cd c) = cd.
 Proof. exact class_default_frame. Qed.
 
-(* MODEL REFINES SPEC (options) *)
+(* constructions in a row are independent *)
+Theorem C18_constructions_independent :
+  forall cs, run cs = map (build go_SYNCHRO_DEFAULT_OPTIONS) cs.
+Proof. exact constructions_independent. Qed.
+
+(* the former aliasing witness now gets the documented default *)
+Theorem C18_synchro_default_kept :
+  exists o1 o2, map fst (run [empty_config; lists_config]) = [Ok o1; Ok o2]
+    /\ o_synchro_options o1 = [go_SynchronizationOptions_TIMEOUT]
+    /\ o_synchro_options o2 = doc_synchro_default.
+Proof. exact synchro_default_kept. Qed.
+
+(* MODEL REFINES SPEC (options), every configuration *)
 Theorem C18_options_refine_spec :
-  forall cd c,
-  class_aliasing cd c = false -> class_nan c = false -> check_one cd c (fst (build cd c)) = VOk.
+  forall c, check_one c (build doc_synchro_default c) = true.
 Proof. exact options_refine_spec. Qed.
 
-(* KNOWN FINDING F21 nan-period *)
-Theorem C18_to_period_nan_refuted :
-  exists v, conv_period (float_of_Z go_default_collecting_period) v = nan /\ period_in_range nan = false.
-Proof. exact to_period_nan_refuted. Qed.
-
-(* KNOWN FINDING F21 nan-period (list; the result is not even sorted) *)
-Theorem C18_to_periods_nan_refuted :
-  exists l, conv_periods (map float_of_Z go_default_stats_periods) (PToks l) = [5%float; nan; 2%float]
-            /\ forallb period_in_range [5%float; nan; 2%float] = false.
-Proof. exact to_periods_nan_refuted. Qed.
-
-(* KNOWN FINDING synchro-default-aliasing *)
-Theorem C18_synchro_default_aliasing_refuted :
-  exists o1 o2, map fst (run [empty_config; lists_config]) = [Ok o1; Ok o2]
-    /\ o_synchro_options o2 = [go_SynchronizationOptions_TIMEOUT]
-    /\ map fst (run [lists_config]) <> [Ok o2]
-    /\ spec_synchro doc_synchro_default lists_config = doc_synchro_default.
-Proof. exact synchro_default_aliasing_refuted. Qed.
+(* MODEL REFINES SPEC (options), every sequence of constructions *)
+Theorem C18_options_sequences_refine_spec :
+  forall cs, check_all cs (run cs) = true.
+Proof. exact options_sequences_refine_spec. Qed.
 
 (* documentation discrepancy: default 5, documented 10 *)
 Theorem C18_collecting_period_default_vs_doc :
   go_default_collecting_period = 5 /\ go_default_collecting_period <> 10.
 Proof. exact collecting_period_default_differs_from_doc. Qed.
-
-(* the defaults of the options are the documented ones *)
-Theorem C18_defaults_as_documented :
-  go_default_ttl = 1 /\ go_default_timeout = 15 /\ go_default_ticks = 2 /\ go_default_histo = 200
-  /\ go_default_auto_fence = false /\ go_default_irix = false
-  /\ go_default_event_link = go_EventLinks_NONE /\ go_default_conciliation = go_ConciliationStrategies_USER
-  /\ go_default_starting = go_StartingStrategies_CONFIG
-  /\ go_default_failure = go_SupvisorsFailureStrategies_CONTINUE
-  /\ go_default_host_stats = true /\ go_default_proc_stats = true
-  /\ go_default_stats_periods = [10] /\ go_default_tail_limit = 1024.
-Proof. exact defaults_as_documented. Qed.
